@@ -243,6 +243,26 @@ PROPS = {
             fuzz("total", "FuzzC15", 120),
         ],
     ),
+    "C16": dict(
+        technique="PBT over Go function types built with reflect.FuncOf/MakeFunc (recording probes) x script-side argument lists, with an accept/refuse/don't-care registration oracle and an exact argument-conversion oracle; exhaustive signature table for arity <= 2",
+        level_text="Function types with 0-3 parameters (+ optional variadic tail) over int, int8..int64, uint, uint8, float32, float64, bool, string, named variants of "
+                   "int/int8/float64/string/bool, struct, slice, pointer, interface, func, channels and error, and 0-3 results, are built by reflection with a recording "
+                   "body, registered through ConvertAndAddFunction / ConvertAndAddCommand (also nil and non-function values) and called from a script with 0-4 "
+                   "arguments of mostly fitting, sometimes wrong, count and type. Registration must never panic; non-functions, nil, unbridgeable parameter or result "
+                   "kinds and too many results must be refused; predeclared signatures with legal result shapes must be accepted; an accepted function is either "
+                   "refused at call time (count/type mismatch, without running) or runs exactly once with arguments equal to Go's conversion to the declared type, and "
+                   "its value or error reaches the script; the bridge never panics. Exhaustive: all parameter lists of length <= 2 over the pool. Search, not proof.",
+        level_note="Where the statement does not decide (uint kinds, interface{} parameters, a command returning a plain value) registration may go either way, but 'accepted "
+                   "implies callable' still applies. A fractional number sent to an integer parameter may arrive as either neighbouring integer. Typed nil function "
+                   "values and error-implementing pointer result types are not generated (outside the stated type pool).",
+        rule="(kind, parameter types, variadic, result types, host-error flag, argument list); non-trivial = an accepted signature that is invoked or refused at call "
+             "time; distinct = distinct serialised cases.",
+        assumptions=["numbers passed to integer parameters are within the range of every integer kind (-100..100)", "handlers without channel complete within 2 s"],
+        subs=[
+            rapid("bridge", "TestC16Bridge", 10000, 100000),
+            enum("signature-table", "TestC16SignatureTable"),
+        ],
+    ),
     "C17": dict(
         technique="PBT with a word classifier written from the statement: generated command statements, logging handlers plus decoy handlers under every keyword and under 'stop'; exhaustive word table",
         level_text="Command statements <<name w ...>> over plain, keyword-prefixed (iffy, settings, jumpy, callme, declared, enumx, casey, localx, stopper, ifx, setup) and "
